@@ -200,6 +200,16 @@ func (o c19Origin) authority() string {
 	}
 	return h
 }
+// originKey identifies the (https) origin a request for o ends up at: an http URL is
+// upgraded keeping its explicit port, and a missing port is the scheme's default after the
+// upgrade, so https://h, https://h:443 and http://h are one origin, https://h:80 another.
+func (o c19Origin) originKey() string {
+	port := o.Port
+	if port == 0 {
+		port = 443
+	}
+	return fmt.Sprintf("https|%s|%d", o.Host, port)
+}
 func (o c19Origin) url() string { return o.Scheme + "://" + o.authority() + "/x" }
 
 func usableTCP(h dns.HTTPS) bool {
@@ -209,7 +219,7 @@ func usableTCP(h dns.HTTPS) bool {
 func TestC19(t *testing.T) {
 	rec := ev.Get("C19")
 	rec.Rule("per case a loopback deployment: 2..4 origins (distinct host names incl. IPv6 literals, several hosts on one listener, default and explicit ports, http and https URLs), each answered by a real crypto/tls HTTP server that issues a certificate for the requested SNI from the test CA and supports ECH, HTTPS RRsets drawn from none / service records with ALPN sets over {h3,h2,http/1.1,other}, no-default-alpn, distinct priorities, port=, ech=, targets / an alias to another name; Transport with or without a recording HTTP/3 round-tripper that dials through ech.Dialer with the request context; some targets marked down; 3..10 GETs across the origins with connection reuse. Oracle: plaintext refusal (http without HTTPS records fails, nothing reaches a server), http upgraded when HTTPS records exist, every request seen by a server carries the original Host, arrives with SNI = URL host on a connection dialed for that host and port, h3 chosen iff the reference decision over the record set says so and then exactly the h3-capable targets are offered (otherwise the h2/http1.1-compatible ones, in order), resp.Request is the caller's request and RoundTrip leaves that request (method, URL, Host, headers) unmodified. distinct = (origin shapes, record sets, request order); non-trivial = 2+ origins share an address or a record offers h3")
-	rec.Mandatory("host_override", "same_host_other_port", "http_upgrade", "plaintext_refused", "h3_chosen", "h3_not_chosen_with_h3_record", "same_address_different_hosts", "ipv6_literal", "conn_reused", "explicit_port", "alias", "target_down")
+	rec.Mandatory("host_override", "same_host_other_port", "http_upgrade", "plaintext_refused", "h3_chosen", "h3_not_chosen_with_h3_record", "same_address_different_hosts", "ipv6_literal", "conn_reused", "explicit_port", "alias", "target_down", "same_host_port80_vs_default")
 	rapid.Check(t, func(t *rapid.T) {
 		S := c19Start(t)
 		var cl []string
@@ -242,7 +252,7 @@ func TestC19(t *testing.T) {
 				o.Host = fmt.Sprintf("o%d.c19.example", i)
 			}
 			if rapid.IntRange(0, 2).Draw(t, "explicit_port") == 0 {
-				o.Port = rapid.SampledFrom([]int{8443, 9443, 443, 8080}).Draw(t, "port")
+				o.Port = rapid.SampledFrom([]int{8443, 9443, 443, 8080, 80}).Draw(t, "port")
 				cl = append(cl, "explicit_port")
 			}
 			if i > 0 && rapid.IntRange(0, 2).Draw(t, "same_host") == 0 {
@@ -251,10 +261,13 @@ func TestC19(t *testing.T) {
 				o.Host = prev.Host
 				o.Server = prev.Server // one host name lives on one server
 				o.Scheme = "https"
-				for _, p := range []int{8443, 9443, 8080, 7001} {
+				for _, p := range rapid.Permutation([]int{8443, 9443, 8080, 7001, 80, 80}).Draw(t, "same_host_port") {
 					if p != prev.Port {
 						o.Port = p
 					}
+				}
+				if o.Port == 80 {
+					cl = append(cl, "same_host_port80_vs_default")
 				}
 				for _, q := range origins {
 					if q.Host == o.Host && q.Port == o.Port {
@@ -553,10 +566,7 @@ func TestC19(t *testing.T) {
 					}
 					results = append(results, reqID+":refused")
 				case len(expTargets) == 0 || allDown:
-					key := o.Scheme + "|" + o.authority()
-					if o.Scheme == "http" {
-						key = "https|" + o.authority()
-					}
+					key := o.originKey()
 					if rerr == nil {
 						// fine if it went out on a pooled connection that this very origin
 						// established before its target was marked down
@@ -598,10 +608,7 @@ func TestC19(t *testing.T) {
 						ev.Violation(t, "C19", rp, "request for %s reached server %d, its addresses belong to server %d", o.url(), hit.Server, o.Server)
 					}
 					// connection identity
-					key := o.Scheme + "|" + o.authority()
-					if o.Scheme == "http" {
-						key = "https|" + o.authority() // an upgraded origin is the https origin
-					}
+					key := o.originKey()
 					if prev, ok := connSeen[hit.ConnID]; ok {
 						cl = append(cl, "conn_reused")
 						if prev != key {
